@@ -1,4 +1,5 @@
 import MwVerif.Model.Sections
+import MwVerif.Lemmas.Lists.Paths
 /-!
 # C02 — well-formed markup parses to the structure it denotes (section nesting)
 
@@ -7,7 +8,14 @@ headings with arbitrary levels — level jumps included — the sections in docu
 headings as written, nothing dropped, duplicated or re-ordered (`c02_sections_in_order`), every
 sub-section is strictly deeper than the section that contains it (`c02_sections_well_nested`), and
 the first heading's section contains exactly the following run of strictly deeper headings
-(`c02_section_extent`).  The other constructs of the property (lists, tables, styles, links,
+(`c02_section_extent`).
+
+For the list nesting of `ParseLines.analyze` (model: `Lists.analyze`): for **every** block of lines
+with arbitrary prefixes over `* # : ;` the analysed block contains every piece of text exactly
+once, in source order, under exactly the list kinds (and hence the depth) its prefix denotes, the
+description of `; term : description` under `:` next to its term (`c02_list_structure`).
+
+The other constructs of the property (tables, styles, links,
 references) are not modelled: for them the check compares the structure denoted by a generated
 document with the structure the real parser builds.
 -/
@@ -133,3 +141,63 @@ theorem c02_section_extent (l : Nat) (a : α) (rest : List (Nat × α)) :
   rw [nest]
 
 end MwVerif.Sections
+
+namespace MwVerif.Lists
+
+/-- **C02 (lists).**  For every block of list lines — any prefixes, any order, jumps in depth,
+mixed kinds — the pieces of text of the analysed block, read in tree order together with their
+list ancestors, are the pieces of the lines in source order, each under the kinds of its prefix
+(`expect`): nothing dropped, duplicated, re-ordered or attached at another depth or kind. -/
+theorem c02_list_structure (ls : List Line) : pathsL [] (analyze ls) = ls.flatMap (expect []) :=
+  (pathsUpTo (size ls)).1 ls (Nat.le_refl _) []
+
+/-- the same below any ancestors (a block inside an item). -/
+theorem c02_list_structure_under (anc : List Kind) (ls : List Line) :
+    pathsL anc (analyze ls) = ls.flatMap (expect anc) :=
+  (pathsUpTo (size ls)).1 ls (Nat.le_refl _) anc
+
+/-- the pieces of one line: its text, and its description part if it has one. -/
+def pieces (l : Line) : List (Nat × Bool) := if l.colon then [(l.id, false), (l.id, true)] else [(l.id, false)]
+
+theorem expect_pieces (anc : List Kind) (l : Line) : (expect anc l).map (·.2) = pieces l := by
+  unfold expect pieces
+  split
+  · split <;> rfl
+  · rfl
+
+/-- **C02 (lists): text exactly once and in source order.** -/
+theorem c02_list_text_in_order (ls : List Line) :
+    (pathsL [] (analyze ls)).map (·.2) = ls.flatMap pieces := by
+  rw [c02_list_structure]
+  induction ls with
+  | nil => rfl
+  | cons l ls ih => rw [List.flatMap_cons, List.flatMap_cons, List.map_append, ih, expect_pieces]
+
+/-- **C02 (lists): depth.**  The text of a line sits exactly as deep as its prefix is long. -/
+theorem c02_list_depth (ls : List Line) (p : Piece) (h : p ∈ pathsL [] (analyze ls)) :
+    ∃ l ∈ ls, p.2.1 = l.id ∧ p.1.length = l.pre.length := by
+  rw [c02_list_structure, List.mem_flatMap] at h
+  obtain ⟨l, hl, hp⟩ := h
+  refine ⟨l, hl, ?_⟩
+  unfold expect at hp
+  split at hp
+  · split at hp
+    · rename_i hlast
+      simp only [List.nil_append, List.mem_cons, List.not_mem_nil, or_false] at hp
+      rcases hp with rfl | rfl
+      · exact ⟨rfl, rfl⟩
+      · refine ⟨rfl, ?_⟩
+        have hne : l.pre ≠ [] := by intro e; rw [e] at hlast; simp at hlast
+        simp only [List.length_append, List.length_dropLast, List.length_cons, List.length_nil]
+        have := List.length_pos_iff.mpr hne
+        omega
+    · simp only [List.nil_append, List.mem_cons, List.not_mem_nil, or_false] at hp
+      rcases hp with rfl | rfl <;> exact ⟨rfl, rfl⟩
+  · simp only [List.nil_append, List.mem_cons, List.not_mem_nil, or_false] at hp
+    subst hp
+    exact ⟨rfl, rfl⟩
+
+-- (the three theorems have no hypotheses: they hold for every block; concrete values of `analyze` are
+-- compared with the real parser through the driver, mode `lists`)
+
+end MwVerif.Lists
